@@ -247,6 +247,7 @@ inline void tamper_value(std::string &v, int variant, const Grp &G)
 	mpz_init(x);
 	mpz_set_str(x, v.c_str(), 10);
 	if (variant == 0) mpz_add_ui(x, x, 1L);
+	else if (variant == 2) mpz_sub(x, x, G.q);      // same residue modulo q, other (for values below q: negative) representative
 	else if (!mpz_cmp(x, G.q)) mpz_add_ui(x, x, 1L);
 	else mpz_set(x, G.q);
 	v = dec(x);
